@@ -187,10 +187,10 @@ theorem digit_ne_soh (ds : Bytes) (h : ds.all isDigit = true) : ∀ x ∈ ds, x 
   omega
 
 /-- on a well-formed frame `jumpLength` lands on the SOH that ends the body -/
-theorem bodyEnd_shape (v ds body' ck r : Bytes) (hv : ∀ x ∈ v, x ≠ 1) (hne : ds ≠ []) (hdd : ds.all isDigit = true)
+theorem bodyEnd_shape (ee : String) (v ds body' ck r : Bytes) (hv : ∀ x ∈ v, x ≠ 1) (hne : ds ≠ []) (hdd : ds.all isDigit = true)
     (hval : digitsVal ds = body'.length + 1)
     (hlen : (frameThen v ds body' ck []).length < 9223372036854775807) :
-    bodyEnd true (frameThen v ds body' ck r) = .ok ((v.length + ds.length + body'.length + 6 : Nat) : Int) := by
+    bodyEnd true ee (frameThen v ds body' ck r) = .ok ((v.length + ds.length + body'.length + 6 : Nat) : Int) := by
   have h2 : findFrom 0 dLen (frameThen v ds body' ck r) = some (v.length + 2) := by
     rw [findFrom_zero]
     have := indexOf_skip 1 [57, 61] (56 :: 61 :: v)
@@ -241,14 +241,14 @@ theorem bodyEnd_shape (v ds body' ck r : Bytes) (hv : ∀ x ∈ v, x ≠ 1) (hne
   omega
 
 /-- junk without "8=", then a well-formed frame: the next frame is exactly that frame -/
-theorem nextFrame_shape (j v ds body' ck r : Bytes) (hj : noBegin j = true) (hv : ∀ x ∈ v, x ≠ 1) (hne : ds ≠ [])
+theorem nextFrame_shape (ee : String) (j v ds body' ck r : Bytes) (hj : noBegin j = true) (hv : ∀ x ∈ v, x ≠ 1) (hne : ds ≠ [])
     (hdd : ds.all isDigit = true) (hval : digitsVal ds = body'.length + 1) (hck : ∀ x ∈ ck, x ≠ 1)
     (hlen : (frameThen v ds body' ck []).length < 9223372036854775807) :
-    nextFrame true (j ++ frameThen v ds body' ck r) = .ok (frameThen v ds body' ck [], r) := by
+    nextFrame true ee (j ++ frameThen v ds body' ck r) = .ok (frameThen v ds body' ck [], r) := by
   have h1 : findFrom 0 dBegin (j ++ frameThen v ds body' ck r) = some j.length := by
     rw [findFrom_zero]; exact indexOf_begin_junk j _ hj
   have hd : (j ++ frameThen v ds body' ck r).drop j.length = frameThen v ds body' ck r := List.drop_left
-  have hbe := bodyEnd_shape v ds body' ck r hv hne hdd hval hlen
+  have hbe := bodyEnd_shape ee v ds body' ck r hv hne hdd hval hlen
   have h4 : findFrom (v.length + ds.length + body'.length + 6) dCk (frameThen v ds body' ck r) =
       some (v.length + ds.length + body'.length + 6) := by
     have e : frameThen v ds body' ck r = (56 :: 61 :: (v ++ 1 :: 57 :: 61 :: (ds ++ 1 :: body'))) ++
@@ -286,17 +286,17 @@ theorem nextFrame_shape (j v ds body' ck r : Bytes) (hj : noBegin j = true) (hv 
     omega
   rw [List.take_left' hl, List.drop_left' hl]
 
-theorem nextFrame_wf (j m r : Bytes) (hj : noBegin j = true) (hm : wfFrame m = true) :
-    nextFrame true (j ++ (m ++ r)) = .ok (m, r) := by
+theorem nextFrame_wf (ee : String) (j m r : Bytes) (hj : noBegin j = true) (hm : wfFrame m = true) :
+    nextFrame true ee (j ++ (m ++ r)) = .ok (m, r) := by
   obtain ⟨v, ds, body', ck, e, hv, hne, hdd, hval, hck, hlen⟩ := wfFrame_shape m hm
   subst e
   rw [frameThen_append]
-  exact nextFrame_shape j v ds body' ck r hj hv hne hdd hval hck hlen
+  exact nextFrame_shape ee j v ds body' ck r hj hv hne hdd hval hck hlen
 
 /-- the frames of  junk₀ m₁ junk₁ m₂ …  are m₁ m₂ … and the stream ends with EOF -/
-theorem framesWhole_parts : ∀ (ms : List (Bytes × Bytes)) (j0 : Bytes),
+theorem framesWhole_parts (ee : String) : ∀ (ms : List (Bytes × Bytes)) (j0 : Bytes),
     Parts.ok ⟨j0, ms⟩ = true →
-    framesWholeG true (Parts.stream ⟨j0, ms⟩) = { frames := Parts.msgs ⟨j0, ms⟩, end_ := .err "eof" } := by
+    framesWholeG true ee (Parts.stream ⟨j0, ms⟩) = { frames := Parts.msgs ⟨j0, ms⟩, end_ := .err ee } := by
   intro ms
   induction ms with
   | nil =>
@@ -304,7 +304,7 @@ theorem framesWhole_parts : ∀ (ms : List (Bytes × Bytes)) (j0 : Bytes),
     simp only [Parts.ok, List.all_nil, Bool.and_true] at h
     simp only [Parts.stream, List.map_nil, List.flatten_nil, List.append_nil, Parts.msgs]
     rw [framesWholeG]
-    have : nextFrame true j0 = .err "eof" := by
+    have : nextFrame true ee j0 = .err ee := by
       unfold nextFrame; simp only [noBegin_findFrom j0 h]
     split
     · rename_i hh; rw [this] at hh; cases hh
@@ -319,7 +319,7 @@ theorem framesWhole_parts : ∀ (ms : List (Bytes × Bytes)) (j0 : Bytes),
       simp only [Parts.ok, Bool.and_eq_true]; exact ⟨hj, hrest⟩
     have hs : Parts.stream ⟨j0, (m, j) :: rest⟩ = j0 ++ (m ++ Parts.stream ⟨j, rest⟩) := by
       simp [Parts.stream]
-    have hnf := nextFrame_wf j0 m (Parts.stream ⟨j, rest⟩) hj0 hm
+    have hnf := nextFrame_wf ee j0 m (Parts.stream ⟨j, rest⟩) hj0 hm
     rw [hs, framesWholeG]
     split
     · rename_i m2 r2 hh
